@@ -31,6 +31,22 @@ class Overlay:
         for rel, content in self.edits.items():
             dst = os.path.join(self.dir, rel)
             os.makedirs(os.path.dirname(dst), exist_ok=True)
+            if not rel.endswith('.cpp'):
+                # a header: mirror its whole include root with symlinks so that sibling-relative includes
+                # (#include "X.h") resolve inside the overlay and never pull the original next to the copy
+                root = 'src/include' if rel.startswith('src/include/') else 'src'
+                for dp, dn, fn in os.walk(os.path.join(REPO, root)):
+                    if root == 'src':
+                        dn[:] = [d for d in dn if not (dp == os.path.join(REPO, 'src') and d in ('include', 'tests'))]
+                    od = os.path.join(self.dir, os.path.relpath(dp, REPO))
+                    os.makedirs(od, exist_ok=True)
+                    for f in fn:
+                        if f.endswith(('.h', '.hpp')):
+                            t = os.path.join(od, f)
+                            if not os.path.lexists(t):
+                                os.symlink(os.path.join(dp, f), t)
+                if os.path.lexists(dst):
+                    os.unlink(dst)
             with open(dst, 'w') as fh:
                 fh.write(content)
         _OVERLAY = self
